@@ -464,8 +464,10 @@ def fresh_oracle(P, W, op, calls, obs, stubs):
     for a, b in zip(calls, fcalls):
         d = diff_calls(a, b)
         if d is not None:
+            key = {"objective values": "fun", "jac values": "jac", "hess values": "hess", "constraint values": "cons",
+                   "constraint jacobian": "cons", "constraint type": "cons", "number of constraints": "cons"}.get(d, d)
             return {"what": f"solver input `{d}` differs from a fresh problem built from the current model",
-                    "method": op[1], "got": str(a.get(d, a.get("bounds")))[:200], "fresh": str(b.get(d, b.get("bounds")))[:200]}
+                    "method": op[1], "got": str(a.get(key))[:200], "fresh": str(b.get(key))[:200]}
     return None
 
 
@@ -637,7 +639,7 @@ def replay(payload) -> bool:
     stubs.install()
     try:
         texts, lines, fails, _ = run_history(W, ops, stubs)
-        if ops == [tuple(o) if not isinstance(o, tuple) else o for o in ops] and any(o[0] == "stbad" for o in ops):
+        if any(o[0] == "stbad" for o in ops):
             rep = core.Report()
             regression_f22(W, stubs, rep)
             fails = fails + rep.oracle_failures
